@@ -105,6 +105,8 @@ def ev(node, env: dict, funcs: dict | None = None, methods: dict | None = None):
                 return env[n.id]
             if n.id in _SAFE_FUNCS:
                 return _SAFE_FUNCS[n.id]          # a built-in handed over as a value (key=len, something=max)
+            if n.id in ("float", "complex", "object"):
+                return {"float": float, "complex": complex, "object": object}[n.id]      # a type handed over as a value (dtype=float)
             raise NotFinite(f"unbound name {n.id}")
         if isinstance(n, ast.Attribute):
             d = dotted(n)
